@@ -1,3 +1,4 @@
+import FimVerif.Model.DiffCfg
 /-!
 # Sliver comparison (C17)
 
@@ -16,6 +17,13 @@ Executable model of `BaseSliver.prop_diff / _dict_diff / _dict_common`, `Interfa
 * What a `diff` hands back (`TopologyDiff`) is modelled by the *names* of the slivers in each slot;
   Python builds sets (added/removed) and lists in set-iteration order (modified), the model lists them
   in dictionary order; order is never compared.
+
+The second half of the file (`propDiffC` … `nodeDiffC`) is the same control flow read off the table `Cfg`
+(`Model/DiffCfg.lean`) that `gen/diffcfg.py` extracts from the source on every run: which properties `prop_diff` compares and
+which flag each raises, which child dictionaries every `diff` method compares (with which sides as arguments of
+`_dict_diff` / `_dict_common`), below which element kinds it descends, which collections decide between a `TopologyDiff`
+and `None`, and which field of the result each collection lands in.  The driver runs these on the generated table;
+`Proofs/Lemmas/C17Cfg.lean` proves that for every table satisfying `Cfg.Good` they are the functions of the first half.
 -/
 namespace FimVerif.Diff
 
@@ -123,8 +131,10 @@ def levelDiffM (flag : α → α → Except String Flags) (a b : Option (List α
 
 end Dict
 
-/-- `TopologyDiff` (names only; the `nodes` slots of added/removed are always empty in sliver diffs) -/
+/-- `TopologyDiff` (names only) -/
 structure TDiff where
+  addedNodes : List String := []
+  removedNodes : List String := []
   addedComps : List String := []
   addedSvcs : List String := []
   addedIfs : List String := []
@@ -255,5 +265,188 @@ def nodeDiff (a b : Node V) : Except String (Option TDiff) :=
     else .ok none
 
 end Methods
+
+/-! ## the same methods, read off the extracted table (`Cfg`) -/
+
+def Flags.get (f : Flags) : FlagK → Bool
+  | .labels => f.labels
+  | .caps => f.caps
+  | .ud => f.ud
+  | .sub => f.sub
+
+/-- `flag |= WhatsModifiedFlag.<k>` -/
+def Flags.set (f : Flags) : FlagK → Flags
+  | .labels => { f with labels := true }
+  | .caps => { f with caps := true }
+  | .ud => { f with ud := true }
+  | .sub => { f with sub := true }
+
+/-- `flag.value`: the members OR-ed together -/
+def encodeC (vals : List (FlagK × Nat)) (f : Flags) : Nat :=
+  vals.foldl (fun n e => if f.get e.1 then n ||| e.2 else n) 0
+
+def pick {β : Type} (s : Side) (x y : β) : β :=
+  match s with
+  | .self => x
+  | .other => y
+
+def propGet {V : Type} (k : PropK) (p : Props V) : Option V :=
+  match k with
+  | .labels => p.labels
+  | .caps => p.caps
+  | .ud => p.ud
+
+/-- `prop_diff`: `flags = NONE; for (getter, flag) in table: if self.getter() != other.getter(): flags |= flag` -/
+def propDiffC {V : Type} [DecidableEq V] (t : List (PropK × FlagK)) (a b : Props V) : Flags :=
+  t.foldl (fun f e => if propGet e.1 a ≠ propGet e.1 b then f.set e.2 else f) Flags.none
+
+section DictC
+variable {α : Type} [Named α]
+
+def dictSub (k : DKey) (a b : List α) : List α :=
+  match k with
+  | .added => dictAdded a b
+  | .removed => dictRemoved a b
+
+/-- the three `if`s of one child dictionary, with the argument sides and branches the source has -/
+def levelC (lc : LevelCfg) (flag : α → α → Flags) (a b : Option (List α)) : Level :=
+  match a, b with
+  | some x, some y =>
+    { added := (dictSub lc.addedKey (pick lc.diffA x y) (pick lc.diffB x y)).map name,
+      removed := (dictSub lc.removedKey (pick lc.diffA x y) (pick lc.diffB x y)).map name,
+      modified := modLoop flag (pick lc.lookup x y) (dictCommon (pick lc.commonA x y) (pick lc.commonB x y)) }
+  | none, some y => if lc.onlyOther then { added := y.map name } else {}
+  | some x, none => if lc.onlySelf then { removed := x.map name } else {}
+  | none, none => {}
+
+def levelCM (lc : LevelCfg) (flag : α → α → Except String Flags) (a b : Option (List α)) : Except String Level :=
+  match a, b with
+  | some x, some y =>
+    match modLoopM flag (pick lc.lookup x y) (dictCommon (pick lc.commonA x y) (pick lc.commonB x y)) with
+    | .error e => .error e
+    | .ok m =>
+      .ok { added := (dictSub lc.addedKey (pick lc.diffA x y) (pick lc.diffB x y)).map name,
+            removed := (dictSub lc.removedKey (pick lc.diffA x y) (pick lc.diffB x y)).map name, modified := m }
+  | none, some y => .ok (if lc.onlyOther then { added := y.map name } else {})
+  | some x, none => .ok (if lc.onlySelf then { removed := x.map name } else {})
+  | none, none => .ok {}
+
+/-- a child dictionary the method does not look at contributes nothing -/
+def mLevel (m : MethodCfg) (c : Coll) (flag : α → α → Flags) (a b : Option (List α)) : Level :=
+  match m.level c with
+  | some lc => levelC lc flag a b
+  | none => {}
+
+def mLevelM (m : MethodCfg) (c : Coll) (flag : α → α → Except String Flags) (a b : Option (List α)) : Except String Level :=
+  match m.level c with
+  | some lc => levelCM lc flag a b
+  | none => .ok {}
+
+end DictC
+
+/-- the collections a method has built, by name -/
+def envN (lv : Coll → Level) : Part → List String
+  | .added c => (lv c).added
+  | .removed c => (lv c).removed
+  | _ => []
+
+def envM (sm : List (String × Flags)) (lv : Coll → Level) : Part → List (String × Flags)
+  | .selfMod => sm
+  | .modified c => (lv c).modified
+  | _ => []
+
+/-- `if <some collection of cond is non-empty>: return TopologyDiff(…) else: return None` -/
+def assemble (m : MethodCfg) (en : Part → List String) (em : Part → List (String × Flags)) : Option TDiff :=
+  if m.cond.any (fun p => !(en p).isEmpty || !(em p).isEmpty) then
+    some { addedNodes := (slotParts m.added .nodes).flatMap en, addedComps := (slotParts m.added .components).flatMap en,
+           addedSvcs := (slotParts m.added .services).flatMap en, addedIfs := (slotParts m.added .interfaces).flatMap en,
+           removedNodes := (slotParts m.removed .nodes).flatMap en, removedComps := (slotParts m.removed .components).flatMap en,
+           removedSvcs := (slotParts m.removed .services).flatMap en, removedIfs := (slotParts m.removed .interfaces).flatMap en,
+           modNodes := (slotParts m.modified .nodes).flatMap em, modComps := (slotParts m.modified .components).flatMap em,
+           modSvcs := (slotParts m.modified .services).flatMap em, modIfs := (slotParts m.modified .interfaces).flatMap em }
+  else none
+
+/-- names in one field of a result -/
+def slotNames (d : TDiff) : Sect × Slot → List String
+  | (.added, .nodes) => d.addedNodes
+  | (.added, .components) => d.addedComps
+  | (.added, .services) => d.addedSvcs
+  | (.added, .interfaces) => d.addedIfs
+  | (.removed, .nodes) => d.removedNodes
+  | (.removed, .components) => d.removedComps
+  | (.removed, .services) => d.removedSvcs
+  | (.removed, .interfaces) => d.removedIfs
+  | (.modified, .nodes) => d.modNodes.map Prod.fst
+  | (.modified, .components) => d.modComps.map Prod.fst
+  | (.modified, .services) => d.modSvcs.map Prod.fst
+  | (.modified, .interfaces) => d.modIfs.map Prod.fst
+
+def recOf (m : MethodCfg) (c : Coll) : Option RecCfg := (m.level c).bind (·.descend)
+
+section MethodsC
+variable {V : Type} [DecidableEq V]
+
+def selfModC (cfg : Cfg) (n : String) (a b : Props V) : List (String × Flags) :=
+  if propDiffC cfg.props a b = Flags.none then [] else [(n, propDiffC cfg.props a b)]
+
+def leafFlagC (cfg : Cfg) (x y : Leaf V) : Flags := propDiffC cfg.props x.props y.props
+
+def onlyIfs (l : Level) : Coll → Level
+  | .ifs => l
+  | _ => {}
+
+/-- `InterfaceSliver.diff` -/
+def ifaceDiffC (cfg : Cfg) (a b : Iface V) : Option TDiff :=
+  let lv := onlyIfs (mLevel cfg.iface .ifs (leafFlagC cfg) a.subs b.subs)
+  assemble cfg.iface (envN lv) (envM (selfModC cfg a.name a.props b.props) lv)
+
+/-- flag of a common interface in `NetworkServiceSliver.diff`; `dedicated` = "the type is one of the kinds the method descends
+    below" (resolved against the table when a tree is read, see `Drivers/C17.lean`) -/
+def ifaceFlagC (cfg : Cfg) (x y : Iface V) : Flags :=
+  let f := propDiffC cfg.props x.props y.props
+  match recOf cfg.svc .ifs with
+  | none => f
+  | some r =>
+    if (pick r.side x y).dedicated then
+      match ifaceDiffC cfg x y with
+      | some d => if r.tests.any (fun t => !(slotNames d t).isEmpty) then f.set r.flag else f
+      | none => f
+    else f
+
+/-- `NetworkServiceSliver.diff` -/
+def svcDiffC (cfg : Cfg) (a b : Svc V) : Option TDiff :=
+  let lv := onlyIfs (mLevel cfg.svc .ifs (ifaceFlagC cfg) a.ifs b.ifs)
+  assemble cfg.svc (envN lv) (envM (selfModC cfg a.name a.props b.props) lv)
+
+def compFlagC (cfg : Cfg) (x y : Comp V) : Except String Flags :=
+  let f := propDiffC cfg.props x.props y.props
+  match recOf cfg.node .comps with
+  | none => .ok f
+  | some r =>
+    if (pick r.side x y).smart then
+      match firstSvc x with
+      | .error e => .error e
+      | .ok sx =>
+        match firstSvc y with
+        | .error e => .error e
+        | .ok sy => .ok (if (svcDiffC cfg sx sy).isSome then f.set r.flag else f)
+    else .ok f
+
+def svcPropFlagC (cfg : Cfg) (x y : Svc V) : Flags := propDiffC cfg.props x.props y.props
+
+def nodeLevels (cl sl : Level) : Coll → Level
+  | .comps => cl
+  | .svcs => sl
+  | .ifs => {}
+
+/-- `NodeSliver.diff` -/
+def nodeDiffC (cfg : Cfg) (a b : Node V) : Except String (Option TDiff) :=
+  match mLevelM cfg.node .comps (compFlagC cfg) a.comps b.comps with
+  | .error e => .error e
+  | .ok cl =>
+    let lv := nodeLevels cl (mLevel cfg.node .svcs (svcPropFlagC cfg) a.svcs b.svcs)
+    .ok (assemble cfg.node (envN lv) (envM (selfModC cfg a.name a.props b.props) lv))
+
+end MethodsC
 
 end FimVerif.Diff
